@@ -116,3 +116,15 @@ From VV Require Import Gen.GenArms Spec.FwdSpec Proofs.FwdProofs.
 Theorem C01_proxy_requests : fwd_ops_ok = true.
 Proof. exact fwd_ops_ok_true. Qed.
 Print Assumptions C01_proxy_requests.
+
+(* ---- the status values of the device-state replies, REGENERATED from backend_req_handler.rs (Gen/GenBeStat.v) and used by
+   the request-server model: in the answer to SET_DEVICE_STATE_FD bit 8 says exactly whether a descriptor is missing, bits
+   0..7 are zero exactly on success; the answer to CHECK_DEVICE_STATE is zero exactly on success ---- *)
+From VV Require Import Gen.GenBeStat Proofs.BeProofs.
+Theorem C01_device_state_reply_values_regenerated :
+  (forall o, N.testbit (ds_reply_value o) 8 = negb (ds_reply_has_fd o)
+             /\ (N.land (ds_reply_value o) 255 =? 0) = ((o =? 0) || (o =? 2))
+             /\ ds_reply_has_fd o = (o =? 2))
+  /\ (forall ok, (cds_reply_value ok =? 0) = ok).
+Proof. split; [exact ds_reply_spec|exact cds_reply_spec]. Qed.
+Print Assumptions C01_device_state_reply_values_regenerated.
